@@ -262,6 +262,15 @@ def dispatch_suite(tier, seed):
                 res['cases'].append(entry)
                 k = '%s/%s' % (reg.get('kind', 'corpus'), reg.get('style', '-'))
                 res['dist'][k] = res['dist'].get(k, 0) + 1
+                # what the proofs split on: allocator (tree / lattice), arity, shapes with non-virtual parameters, error cells
+                d2 = res.setdefault('dist2', {})
+                mi = any(len(v) > 1 for v in reg['parents'].values())
+                d2['lattice allocator (some class has >= 2 direct bases)' if mi else 'tree allocator only'] = d2.get('lattice allocator (some class has >= 2 direct bases)' if mi else 'tree allocator only', 0) + 1
+                for m in reg['methods']:
+                    kk = 'methods of arity %d' % len(m['vp']); d2[kk] = d2.get(kk, 0) + 1
+                    if 'n' in m['shape']: d2['methods with non-virtual parameters'] = d2.get('methods with non-virtual parameters', 0) + 1
+                    kk = 'methods with %s definitions' % (len(m['defs']) if len(m['defs']) < 4 else '>= 4'); d2[kk] = d2.get(kk, 0) + 1
+                for pp in pols: d2['policy ' + pp] = d2.get('policy ' + pp, 0) + 1
         res['n'] = len(items)
         res['wall'] = time.time() - t0
         return res
@@ -309,7 +318,8 @@ def summarize(ctx, res, prop, related=()):
     return {'evaluations': len(res['cases']), 'distinct_nontrivial': len(nontriv), 'distinct': len(seen),
             'rule': 'registries generated by tools/corelib.gen_registry (DAG kinds x presentation styles, see input_distribution) + corpus/core; '
                     'distinct by sha1 of (records, methods); non-trivial = has a class with >= 2 direct bases or a method with >= 2 definitions',
-            'samples': samples, 'input_distribution': res['dist'], 'legal_tuples_checked': tuples, 'erroring_tuples': err_tuples,
+            'samples': samples, 'input_distribution': res['dist'], 'input_distribution_by_proof_case': res.get('dist2', {}),
+            'legal_tuples_checked': tuples, 'erroring_tuples': err_tuples,
             'cases_with_model_impl_difference': ndiff, 'cases_failing_property': nfail, 'suite_wall_s': round(res.get('wall', 0), 1),
             'exhaustive_small_scope_registries': res.get('exhaustive_small_scope', 0)}
 
